@@ -66,7 +66,7 @@ Apply(r) ==
     [] r.e = "panic" \/ r.e = "deadlock" -> ObsCrash(r.e)
     [] r.e = "rootclosecall" -> ObsRootCloseCall(r.t)
     [] r.e = "rootcloseret"  -> ObsRootCloseReturn(r.t, r.err, r.experr, r.loopended)
-    [] r.e = "timercall" -> ObsTimerCall(r.t, r.id, r.v)
+    [] r.e = "timercall" -> ObsTimerCall(r.t, r.id, r.v, r.inert)
     [] r.e = "timerret"  -> ObsTimerReturn(r.t)
     [] OTHER -> UNCHANGED ovars        \* informational events (steps, notes)
 
